@@ -651,6 +651,8 @@ func genSkeleton() string {
 	b.WriteString("def journalObjects : List (String × String × String) := [\n  " + strings.Join(genJournalObjects(), ",\n  ") + "\n]\n")
 	b.WriteString("\n/-- every access to a struct field that some sync/atomic call of the module synchronises, and every plain copy\n    of a struct holding one: (pkg.Func, 0 = through sync/atomic | 1 = in a variable private to the function | 2 = in shared memory, what) -/\n")
 	b.WriteString("def atomicUses : List (String × Nat × String) := [\n  " + strings.Join(genAtomicUses(), ",\n  ") + "\n]\n")
+	b.WriteString("\n/-- every function of simple/ops.go that takes the per-inode lock, calls an `_internal` body or commits, with\n    those calls in source order: (name, is a body run under the caller's lock, [(0, _) Acquire | (1, _) Release |\n    (2, the `_internal` body called) | (3, the wait argument of CommitWait as written)]) -/\n")
+	b.WriteString("def simpleLockUses : List (String × Bool × List (Nat × String)) := [\n  " + strings.Join(genSimpleLocks(), ",\n  ") + "\n]\n")
 	b.WriteString("\nend GoNfsd.Gen.Skeleton\n")
 	return b.String()
 }
@@ -1042,4 +1044,55 @@ func genMutexSkeleton(b *strings.Builder, total *skel) (names []string, fieldsOu
 		}
 	}
 	return names, fieldsOut
+}
+
+// genSimpleLocks: the simple server's version of "locks are given back only after the flush"
+// (Model/Reveal): a handler takes the inode's lock, runs its body — which reads, writes and
+// commits WAITING for the disk — and only then gives the lock back.
+func genSimpleLocks() []string {
+	fset := token.NewFileSet()
+	f, err := parser.ParseFile(fset, filepath.Join(repo, "simple", "ops.go"), nil, 0)
+	if err != nil {
+		fail("simple locks: %v", err)
+	}
+	var out []string
+	for _, d := range f.Decls {
+		fd, ok := d.(*ast.FuncDecl)
+		if !ok || fd.Body == nil {
+			continue
+		}
+		var toks []string
+		ast.Inspect(fd.Body, func(x ast.Node) bool {
+			ce, ok := x.(*ast.CallExpr)
+			if !ok {
+				return true
+			}
+			name := ""
+			switch fn := ce.Fun.(type) {
+			case *ast.SelectorExpr:
+				name = fn.Sel.Name
+			case *ast.Ident:
+				name = fn.Name
+			}
+			switch {
+			case name == "Acquire":
+				toks = append(toks, "(0, \"\")")
+			case name == "Release":
+				toks = append(toks, "(1, \"\")")
+			case name == "CommitWait" && len(ce.Args) == 1:
+				toks = append(toks, "(3, "+q(types.ExprString(ce.Args[0]))+")")
+			case strings.HasSuffix(name, "_internal"):
+				toks = append(toks, "(2, "+q(name)+")")
+			}
+			return true
+		})
+		if len(toks) > 0 {
+			body := "false" // a body runs under its caller's lock
+			if fd.Recv == nil {
+				body = "true"
+			}
+			out = append(out, fmt.Sprintf("(%s, %s, [%s])", q(fd.Name.Name), body, strings.Join(toks, ", ")))
+		}
+	}
+	return out
 }
